@@ -225,6 +225,9 @@ func runC06(tier string) *vf.Run {
 	for _, c := range cases {
 		classes[c.Class] = true
 	}
+	if os.Getenv("C06_ONLY") == "" && *fCase < 0 {
+		runC06Gone(run) // eighth class: the downstream server goes away (see c06_gone.go)
+	}
 	parallel(len(cases), run.Pick(8, 10), func(i int) {
 		c := cases[i]
 		r := runC06Case(c, fmt.Sprintf("c06-%d", c.Idx))
